@@ -159,9 +159,17 @@ pub fn weights_of(v: &Value) -> (HashMap<String, f64>, Vec<Value>) {
 
 /// an amount placed relative to the broker's current cash balance (boundary probing: the driver cannot know the
 /// balance in advance); falls back to the literal "x"
-fn amount_of(op: &Value, cash: f64) -> f64 {
+fn amount_of(op: &Value, cash: f64, liq: f64, total: f64) -> f64 {
     match op.get("rel").and_then(|r| r.as_str()) {
         None => bf(&op["x"]),
+        // relative to the portfolio's liquidation value / total value (they differ by the selling costs): the band
+        // in which a request is coverable gross but not net
+        Some("liq_eq") => liq,
+        Some("liq_up") => f64::from_bits(if liq > 0.0 { liq.to_bits() + 1 } else { liq.to_bits().wrapping_sub(1) }),
+        Some("liq_down") => f64::from_bits(if liq > 0.0 { liq.to_bits() - 1 } else { liq.to_bits() + 1 }),
+        Some("liq_mid_total") => (liq + total) / 2.0,
+        Some("total_eq") => total,
+        Some("liq_half") => liq / 2.0,
         Some("eq") => cash,
         Some("ulp_up") => f64::from_bits(if cash > 0.0 { cash.to_bits() + 1 } else { cash.to_bits().wrapping_sub(1) }),
         Some("ulp_down") => f64::from_bits(if cash > 0.0 { cash.to_bits() - 1 } else { cash.to_bits() + 1 }),
@@ -181,7 +189,7 @@ pub fn run(sc: &Value) -> Value {
     let mut results = Vec::new();
     for op in arr(&sc["ops"]) {
         rig.log.borrow_mut().clear();
-        let x_used = if op.get("x").is_some() || op.get("rel").is_some() { amount_of(op, b.get_cash_balance()) } else { 0.0 };
+        let x_used = if op.get("x").is_some() || op.get("rel").is_some() { amount_of(op, b.get_cash_balance(), b.get_liquidation_value(), b.get_total_value()) } else { 0.0 };
         let r = catch(|| match s(&op["op"]).as_str() {
             "deposit" => cash_event_json(&b.deposit_cash(&x_used)),
             "withdraw" => cash_event_json(&b.withdraw_cash(&x_used)),
